@@ -12,7 +12,6 @@ for f in mutants/*.diff seeded/*/patch.diff; do
   echo "$name" | grep -qE "$FILTER" || continue
   case "$name" in
     C12-w17b) P=C13;;
-    C12-w19b) P=C01;;
     c13_*|C13-*|rev_fix_symbols_len|rev_fix_extlookup_lock|rev_fix_string_module) P=C13;; c12_*|C12-*|rev_fix_envfrompath|rev_fix_copy_cells) P=C12;; c02_*|C02-*|rev_fix_nilcoalesce|rev_fix_okexpr_interrupt|rev_fix_defer_interrupt) P=C02;;
     c16_*|C16-*|rev_fix_close_iface) P=C16;; c09_*|C09-*|rev_fix_throw_empty) P=C09;; c14_*|C14-*|rev_fix_nil_values|rev_fix_env_nilvalue|rev_fix_ident_nilvalue|rev_fix_import_nilvalue) P=C14;; c01_*|C01-*|rev_fix_go_recover|rev_fix_deref_nil|rev_fix_spread_fixed_arity|rev_fix_forin_nil|rev_fix_nil_operands|rev_fix_degenerate_forms|rev_fix_nil_module|rev_fix_nil_module_path|rev_fix_unexported_field|rev_fix_nil_iface_member|rev_fix_module_tostring|rev_fix_map_member_key|rev_fix_chanof_recover) P=C01;; *) continue;;
   esac
